@@ -168,10 +168,16 @@ def check_stream(res, tr, allow_failures=True):
                 continue
             expected = [o for o in offsets_sorted if o >= next_expected][:len(offs)]
             if offs != expected and pending_resets:
-                alt = [o for o in offsets_sorted if o >= pending_resets[0]][:len(offs)]
-                if offs == alt:
-                    next_expected = pending_resets.pop(0)
-                    expected = alt
+                # several resets may follow one another with nothing delivered in between (the position resolved by
+                # the first is itself out of range by the time it is fetched): the stream continues at whichever of
+                # the pending positions the delivery matches, and the ones before it are spent
+                for ri, pos_ in enumerate(pending_resets):
+                    alt = [o for o in offsets_sorted if o >= pos_][:len(offs)]
+                    if offs == alt:
+                        next_expected = pos_
+                        del pending_resets[:ri + 1]
+                        expected = alt
+                        break
             if offs != expected:
                 if offs and expected and offs[0] < next_expected:
                     what = "repeat-or-backwards"
